@@ -61,7 +61,7 @@ var LeafKinds = []string{
 	"new", "newf", "assertf", "unimpl", "domnew", "goerr", "sentinel", "pkgnew",
 	"grpcstatus", "gogostatus", "addrerr", "dnsleaf", "unknownnet",
 	"uleafptr", "uleafval", "uleafnc", "uleaffmtold", "uleafformatter", "uleafsafefmt",
-	"rleaf", "risleaf", "prototest", "uoptleaf",
+	"rleaf", "risleaf", "prototest", "uoptleaf", "uleafas",
 }
 
 var WrapKinds = []string{
@@ -72,10 +72,10 @@ var WrapKinds = []string{
 	"goerrorf", "goerrorfsuffix", "ospath", "oslink", "ossyscall", "netop", "dnswrap",
 	"pkgmsg", "pkgstack", "pkgwrap",
 	"uwrapnofmt", "uwrapcause", "uwraptransparent", "uwrapsuffix", "uwrapoverride",
-	"uwrapformatter", "uwrapsafefmt", "uopt", "uwrapfmtold", "rwrapfull",
+	"uwrapformatter", "uwrapsafefmt", "uopt", "uwrapfmtold", "rwrapfull", "uwrapasself", "newfwerr",
 }
 
-var MultiKinds = []string{"join", "gojoin", "goerrorfmulti", "umulti", "rmulti"}
+var MultiKinds = []string{"join", "gojoin", "goerrorfmulti", "umulti", "rmulti", "umulticause"}
 
 // BarrierKinds hide their C behind a barrier.
 var BarrierKinds = []string{"handled", "handledmsg", "handleddomain", "handleddomainmsg", "domhandled", "handleassert", "assertwrap"}
@@ -170,7 +170,7 @@ func (g *Cfg) LeafOf(t *rapid.T, k string) *Spec {
 	str := g.Str
 	s := &Spec{K: k}
 	switch k {
-	case "new", "domnew", "goerr", "pkgnew", "uleafptr", "uleafval", "uleafnc", "uleaffmtold", "rleaf", "uoptleaf", "unknownnet":
+	case "new", "domnew", "goerr", "pkgnew", "uleafas", "uleafptr", "uleafval", "uleafnc", "uleaffmtold", "rleaf", "uoptleaf", "unknownnet":
 		s.S = []string{str(t, "msg")}
 	case "newf", "assertf":
 		// S[0] safe literal, S[1] unsafe arg, S[2] safe arg
@@ -220,8 +220,12 @@ func (g *Cfg) WrapOf(t *rapid.T, k string, c *Spec) *Spec {
 	s := &Spec{K: k, C: c}
 	switch k {
 	case "wrap", "withmsg", "hint", "detail", "handledmsg", "goerrorf", "goerrorfsuffix",
-		"pkgmsg", "pkgwrap", "uwrapnofmt", "uwrapcause", "uwrapsuffix", "uwrapoverride", "uopt", "uwrapfmtold", "rwrapfull":
+		"pkgmsg", "pkgwrap", "uwrapnofmt", "uwrapcause", "uwrapsuffix", "uwrapoverride", "uopt", "uwrapfmtold", "rwrapfull", "uwrapasself":
 		s.S = []string{str(t, "msg")}
+	case "newfwerr":
+		// Newf with %w and another error-typed argument.
+		s.S = []string{str(t, "lit")}
+		s.X = []*Spec{nil}
 	case "wrapf", "withmsgf", "safedetails", "assertwrap", "newfw", "newfwsuffix":
 		s.S = []string{str(t, "lit"), str(t, "uarg"), str(t, "sarg")}
 	case "telemetry":
@@ -247,7 +251,8 @@ func (g *Cfg) WrapOf(t *rapid.T, k string, c *Spec) *Spec {
 				key = string(rune('a' + i))
 			}
 			s.S = append(s.S, key, str(t, "val"))
-			s.I = append(s.I, rapid.SampledFrom([]int{0, 0, 0, 1}).Draw(t, "valueless"))
+			// value kind: 0 string, 1 no value, 2 redact.SafeString, 3 integer (its decimal form)
+			s.I = append(s.I, rapid.SampledFrom([]int{0, 0, 0, 1, 2, 3}).Draw(t, "valuekind"))
 		}
 	case "mark", "secondary", "combine":
 		s.X = []*Spec{nil}
@@ -256,7 +261,7 @@ func (g *Cfg) WrapOf(t *rapid.T, k string, c *Spec) *Spec {
 		s.S = []string{str(t, "lit")}
 		s.X = []*Spec{nil}
 	case "httpcode":
-		s.I = []int{rapid.IntRange(100, 599).Draw(t, "code")}
+		s.I = []int{rapid.OneOf(rapid.IntRange(100, 599), rapid.Just(0)).Draw(t, "code")}
 	case "grpccode":
 		s.I = []int{rapid.IntRange(1, 16).Draw(t, "code")}
 	case "ospath":
@@ -301,7 +306,7 @@ func (g *Cfg) MultiOf(t *rapid.T, k string) *Spec {
 	}
 	s.X = make([]*Spec, n)
 	switch k {
-	case "goerrorfmulti", "umulti", "rmulti":
+	case "goerrorfmulti", "umulti", "rmulti", "umulticause":
 		s.S = []string{g.Str(t, "msg")}
 	case "join", "gojoin":
 		// bit i: a nil argument precedes branch i; bit n: trailing nil.
